@@ -38,6 +38,25 @@ func (b *Board) append(msgs ...storage.Message) []storage.Message {
 	return out
 }
 
+// InjectKeepID appends messages as an outside writer under the identifiers they carry (a board that stores one entry
+// twice, e.g. after a producer's retry, gives both copies the same identifier and different offsets).
+func (b *Board) InjectKeepID(msgs ...storage.Message) []storage.Message {
+	b.mu.Lock()
+	defer b.mu.Unlock()
+	out := make([]storage.Message, len(msgs))
+	for i, m := range msgs {
+		m.Offset = uint64(len(b.msgs))
+		if m.ID == "" {
+			m.ID = fmt.Sprintf("00000000-0000-4000-8000-%012d", m.Offset)
+		}
+		m.Data = append([]byte(nil), m.Data...)
+		m.Signature = append([]byte(nil), m.Signature...)
+		b.msgs = append(b.msgs, m)
+		out[i] = m
+	}
+	return out
+}
+
 // Inject appends messages as an outside writer (no view involved).
 func (b *Board) Inject(msgs ...storage.Message) []storage.Message { return b.append(msgs...) }
 
